@@ -56,6 +56,7 @@ int sf_verif_snapshot (SNDFILE *sndfile, SF_VERIF_STATE *out) ;
 #ifdef HAVE_ASAN
 size_t __sanitizer_get_current_allocated_bytes (void) ;
 void __sanitizer_set_death_callback (void (*cb) (void)) ;
+void __sanitizer_symbolize_pc (void *pc, const char *fmt, char *out_buf, size_t out_buf_size) ;
 #endif
 
 /* ---- pinned clock (link-time wraps) ---- */
@@ -877,6 +878,11 @@ int main (int argc, char **argv)
 		time_t t0 = 0 ; struct tm tmv ; char tb [64] ; tzset () ; gmtime_r (&t0, &tmv) ; localtime_r (&t0, &tmv) ; strftime (tb, sizeof (tb), "%c", &tmv) ;
 		snprintf (tb, sizeof (tb), "%f %g", 1.5, 2.5e-7) ; (void) strtod ("1.5", NULL) ;
 		{ pthread_t th ; if (pthread_create (&th, NULL, warm_thread, NULL) == 0) pthread_join (th, NULL) ; }
+#ifdef HAVE_ASAN
+		/* the sanitizer runtime starts its external symbolizer (a child process and two pipes) at the first report, including a
+		** suppressed one : start it now so that those descriptors are part of the baseline and not of some later call */
+		{ char sb [256] ; __sanitizer_symbolize_pc ((void *) (uintptr_t) &count_fds, "%f", sb, sizeof (sb)) ; }
+#endif
 		}
 	size_t cap = 1 << 24 ; char *line = malloc (cap) ; int idx = -1 ; int skipping = 0 ;
 	while (fgets (line, (int) cap, sf))
